@@ -699,7 +699,7 @@ pub static C24: CheckDef = CheckDef {
     stub: &["request body (simulated AsyncRead)", "async runtime"],
     assumptions: &["the tempfile feature is off, so uploads are in-memory Bytes (no blocking thread pool, no real files)"],
     restrictions: &["when the operations or map part itself exceeds max_file_size, or the whole body exceeds max_file_size*max_num_files, the library's byte budgets reject the request; the model accepts either outcome there (counted as probe:byte-budget-ambiguous)", "variable paths in the map always point at existing variable positions"],
-    expected_probes: &["probe:file-bound-to-several-paths", "probe:batch-path", "probe:more-files-than-max", "probe:file-over-max-size", "probe:chunk-split-inside-boundary", "probe:map-entry-without-file"],
+    expected_probes: &["probe:file-bound-to-several-paths", "probe:batch-path", "probe:more-files-than-max", "probe:file-over-max-size", "probe:chunk-split-inside-boundary", "probe:map-entry-without-file", "probe:two-files-same-filename"],
 };
 
 #[derive(Clone, Debug)]
@@ -753,7 +753,10 @@ fn run_c24(variant: usize) -> CaseOut {
             }
             d
         };
-        files.push(GenFile { name: format!("{i}"), filename: format!("f{i}.bin"), ctype: if chance(1, 2) { Some("application/octet-stream".into()) } else { None }, data });
+        files.push(GenFile { name: format!("{i}"), filename: if chance(1, 3) { "same.bin".to_string() } else { format!("f{i}.bin") }, ctype: if chance(1, 2) { Some("application/octet-stream".into()) } else { None }, data });
+    }
+    if files.iter().enumerate().any(|(i, a)| files.iter().skip(i + 1).any(|b| a.filename == b.filename && a.ctype == b.ctype)) {
+        sim::count("probe:two-files-same-filename");
     }
     // map: file name -> paths
     let mut map: BTreeMap<String, Vec<String>> = BTreeMap::new();
